@@ -112,6 +112,25 @@ FLOWS = {
     },
 }
 
+def _clone_flow(name: str, new_supp: str) -> dict:
+    """The same pairing flow with ANOTHER supplicant of the same class (id and its 6-hex form substituted in the expected frames)."""
+
+    def hexid(dev: str) -> str:
+        return f"{(int(dev[:2]) << 18) + int(dev[3:]):06X}"
+
+    f = FLOWS[name]
+    old = next(iter(f["supp"]))
+    return {
+        "resp": {k: dict(v) for k, v in f["resp"].items()},
+        "supp": {new_supp: dict(f["supp"][old])},
+        "pkts": tuple(p.replace(old, new_supp).replace(hexid(old), hexid(new_supp)) for p in f["pkts"]),
+    }
+
+
+FLOWS["CO2-FAN#2"] = _clone_flow("CO2-FAN", "37:154099")
+FLOWS["RND-CTL#2"] = _clone_flow("RND-CTL", "34:259499")
+FLOWS["DHW-CTL#2"] = _clone_flow("DHW-CTL", "07:045999")
+
 THIRD = {
     # unrelated binding traffic (a third pair binding nearby), by kind
     "offer": " I --- 34:111111 --:------ 34:111111 1FC9 012 00230987B207001FC987B207",
@@ -154,14 +173,18 @@ class BindWorld:
         self.loop = self.w.loop
         self.loop.batch_cost = BATCH  # a loop iteration takes 0.3 ms: a timer can fall due while a packet is still being worked off
         self.faults = True
-        known = {**self.flow["resp"], **self.flow["supp"], **THIRD_DEVICES}  # (third parties must pass the filter to be heard at all)
+        # "retry_flow": the fresh attempt after the episode is made by ANOTHER supplicant (another flow's) to the same respondent
+        self.flow2 = FLOWS[params["retry_flow"]] if params.get("retry_flow") else self.flow
+        known = {**self.flow["resp"], **self.flow["supp"], **self.flow2["supp"], **THIRD_DEVICES}  # (third parties must pass the filter to be heard at all)
         cfg = {"disable_discovery": True, "disable_qos": False, "enforce_known_list": True}
         self.gr = self.w.add_gateway(gwy_id=GR, config=dict(cfg), known_list={k: dict(v) for k, v in known.items()}, orphans_hvac=list(self.flow["resp"]))
-        self.gs = self.w.add_gateway(gwy_id=GS, config=dict(cfg), known_list={k: dict(v) for k, v in known.items()}, orphans_hvac=list(self.flow["supp"]))
+        self.gs = self.w.add_gateway(gwy_id=GS, config=dict(cfg), known_list={k: dict(v) for k, v in known.items()}, orphans_hvac=list({**self.flow["supp"], **self.flow2["supp"]}))
         self.resp = self.gr.get_device(next(iter(self.flow["resp"])))
         self.supp = self.gs.get_device(next(iter(self.flow["supp"])))
+        self.supp2 = self.gs.get_device(next(iter(self.flow2["supp"])))
         _ensure_fakeable(self.resp)
         _ensure_fakeable(self.supp)
+        _ensure_fakeable(self.supp2)
         self.w.on_write = self._on_write
         self.nwrites = 0
         self.third_done: set = set()
@@ -245,8 +268,8 @@ class BindWorld:
                 loop.call_later(0.012, self._hear, gi, THIRD[fate[1]])
 
     # -- callers
-    def _args(self):
-        p = self.flow["pkts"]
+    def _args(self, flow=None):
+        p = (flow or self.flow)["pkts"]
         pl = p[1].split()[-1]
         accept_codes = [pl[i : i + 4] for i in range(2, len(pl), 12)]
         idx = pl[:2]
@@ -257,12 +280,14 @@ class BindWorld:
         ratify = len(p) > 3
         return accept_codes, idx, offer_codes, confirm_code, ratify
 
-    def attempt(self, supp_delay: float, horizon: float) -> dict:
+    def attempt(self, supp_delay: float, horizon: float, second: bool = False) -> dict:
         from ramses_tx.command import Command
 
         L = G.lib()
-        accept_codes, idx, offer_codes, confirm_code, ratify = self._args()
-        ratify_cmd = Command(self.flow["pkts"][3]) if ratify else None
+        flow = self.flow2 if second else self.flow
+        supp = self.supp2 if second else self.supp
+        accept_codes, idx, offer_codes, confirm_code, ratify = self._args(flow)
+        ratify_cmd = Command(flow["pkts"][3]) if ratify else None
         loop = self.loop
         out: dict = {}
         t0 = loop.time()
@@ -287,10 +312,10 @@ class BindWorld:
         rd, sd = (0.0, supp_delay) if supp_delay >= 0 else (-supp_delay, 0.0)
         if self.params.get("api"):  # the public per-device-class entry point: its own code list, no confirm code, no addenda
             tr = loop.create_task(wrap("resp", lambda: self.resp._wait_for_binding_request(accept_codes, idx=idx, require_ratify=False), rd))
-            ts = loop.create_task(wrap("supp", lambda: self.supp.initiate_binding_process(), sd))
+            ts = loop.create_task(wrap("supp", lambda: supp.initiate_binding_process(), sd))
         else:
             tr = loop.create_task(wrap("resp", lambda: self.resp._wait_for_binding_request(accept_codes, idx=idx, require_ratify=ratify), rd))
-            ts = loop.create_task(wrap("supp", lambda: self.supp._initiate_binding_process(offer_codes, confirm_code=confirm_code, ratify_cmd=ratify_cmd), sd))
+            ts = loop.create_task(wrap("supp", lambda: supp._initiate_binding_process(offer_codes, confirm_code=confirm_code, ratify_cmd=ratify_cmd), sd))
         self.tasks = {"resp": tr, "supp": ts}
         loop.quiesce_until(lambda: tr.done() and ts.done(), t0 + horizon)
         for name, t in (("resp", tr), ("supp", ts)):
@@ -336,7 +361,7 @@ class BindWorld:
         n_exc = len(self.loop.exc)
         # (the fresh attempt may itself have its supplicant start late - e.g. 4.8 s, inside the respondent's 5 s offer wait - so that
         #  it is still in progress when timers left over from the first attempt fall due)
-        obs["second"] = self.attempt(p.get("retry_supp_delay", 0.0), HORIZON)
+        obs["second"] = self.attempt(p.get("retry_supp_delay", 0.0), HORIZON, second=True)
         self.loop.quiesce(self.loop.time() + 12.0)
         obs["state_final"] = self.state()
         gc.collect()
@@ -432,7 +457,8 @@ def oracle(obs: dict, params: dict) -> list[tuple[str, str]]:
         if _unretrieved_binding_failure(e):
             continue
         out.append((f"C20:loop-exception:{e[0]}:{e[2]}", f"unhandled in the event loop: {e} ({ctx})"))
-    _judge_attempt("retry", obs["second"], flow, True, out, ctx + ", fresh attempt after the episode", api, api_tag)
+    flow2 = FLOWS[params["retry_flow"]] if params.get("retry_flow") else flow
+    _judge_attempt("retry", obs["second"], flow2, True, out, ctx + (", fresh attempt after the episode" if flow2 is flow else f", fresh attempt by another supplicant ({params['retry_flow']}) after the episode"), api, api_tag)
     sf = obs["state_final"]
     for role in ("resp", "supp"):
         if sf[f"{role}_binding"]:
@@ -456,7 +482,7 @@ def scenarios(quick: bool) -> list[tuple[dict, int]]:
     sc: list[tuple[dict, int]] = []
     allk = ("rep", "lose", "late", "third", "cancel")
     for flow in FLOWS:
-        if flow in ("REM-FAN-orcon", "RND-CTL-00"):
+        if flow in ("REM-FAN-orcon", "RND-CTL-00") or "#" in flow:
             continue  # (only driven through the public entry point below: the table row is not one of the repo's five)
         # every pattern of repeats over all frames of the handshake (benign only): D = number of frames
         sc.append(({"flow": flow, "dev": ("rep",)}, 3 if quick else 4))
@@ -471,6 +497,9 @@ def scenarios(quick: bool) -> list[tuple[dict, int]]:
     for flow in ("RND-CTL", "CO2-FAN", "DHW-CTL"):
         for d in (4.8, 4.4):
             sc.append(({"flow": flow, "dev": ("lose", "cancel"), "retry_supp_delay": d}, 2 if quick else 3))
+    # the fresh attempt is made by another supplicant to the same respondent (two remotes paired with one fan, one after the other)
+    for a in ("CO2-FAN", "RND-CTL", "DHW-CTL"):
+        sc.append(({"flow": a, "retry_flow": a + "#2", "dev": ("rep", "lose", "late", "cancel")}, 1 if quick else 2))
     # who starts first, and by how much (around the 5 s offer wait)
     for flow in ("DHW-CTL", "CO2-FAN"):
         for d in (-1.0, -4.9, -5.2, 1.0, 4.9, 5.2, 12.0):
